@@ -158,7 +158,7 @@ def correspondence(rep, ctx):
                                 # explicit display lists of 1-3 nuclides in a random (requested) order
                                 disp = "all" if r.random() < 0.5 else r.sample(dcont, min(len(dcont), r.choice([1, 2, 3])))
                                 rep.dist("plot:display=all" if disp == "all" else f"plot:display-list-{len(disp)}")
-                                xmin = 0.0 if r.random() < 0.7 else T / 10
+                                xmin = 0.0 if r.random() < 0.6 else r.choice([T / 10, T / 10, 0.01, 0.002, T / 1000])
                                 yscale = r.choice(["linear", "log"])
                                 shared_ax.clear()
                                 fig, ax = inv.plot(T, tu, xmin=xmin, xscale=scale, yscale=yscale, yunits=u, display=disp,
@@ -249,6 +249,26 @@ def correspondence(rep, ctx):
                     for ci, c in enumerate(want_n):
                         if not same(kw["ydata"][ci][1], ref[c]):
                             fail(desc, f"curve {ci} ({c}): {kw['ydata'][ci][1]!r} vs decay(t).numbers = {ref[c]!r}")
+        # a logarithmic time axis starts at the xmin it was given, however small (0.1 only stands in for the default 0)
+        for C in (rd.Inventory, rd.InventoryHP):
+            for xmin_ in (0.01, 0.002, 0.5, 0.0):
+                inv = C({"Po-214": 1000.0}, "Bq")
+                desc = f"{C.__name__}({{'Po-214': 1000.0}}, 'Bq').plot(1.0, 'ms', xmin={xmin_!r}, xscale='log', npoints=4)"
+                rep.case(("log-xmin", C.__name__, xmin_))
+                rep.dist("plot:log-xmin")
+                try:
+                    shared_ax.clear()
+                    inv.plot(1.0, "ms", xmin=xmin_, xscale="log", yunits="Bq", npoints=4, fig=shared_fig, axes=shared_ax)
+                    kw = dict(captured)
+                    lo_ = xmin_ if xmin_ > 0 else 0.1
+                    if not grid_ok(kw["time_points"], lo_, 1.0, 4, "log"):
+                        fail(desc, f"time grid {list(kw['time_points'])} is not the log grid from {lo_} to 1.0")
+                        continue
+                    ref = inv.decay(kw["time_points"][0], "ms").activities("Bq")
+                    if not same(kw["ydata"][0][0], ref["Po-214"], 4):
+                        fail(desc, f"first point {kw['ydata'][0][0]!r} vs decay(t0).activities = {ref['Po-214']!r}")
+                except Exception as e:  # noqa: BLE001
+                    fail(desc, f"raised {type(e).__name__}: {e}")
         # fraction curves of a DISPLAYED SUBSET are still shares of the whole decayed inventory
         for C in (rd.Inventory, rd.InventoryHP):
             for yu in ("activity_frac", "mass_frac", "mol_frac"):
